@@ -224,6 +224,66 @@ func runReset(c *core.Ctx) []core.Obligation {
 			}
 		})
 	}
+	// the converse: a Loop or Polygon adds itself to its own index only after that index was emptied in the same
+	// function - by Reset() or by replacing it with a new index - on every path. (Adding to an index that still holds
+	// the previous version of the shape leaves the stale cells in place, or turns into an incremental update.)
+	for _, fn := range c.GeoFuncs() {
+		if fn.Signature.Recv() == nil || !(core.IsNamed(fn.Signature.Recv().Type(), "s2", "Loop") || core.IsNamed(fn.Signature.Recv().Type(), "s2", "Polygon")) {
+			continue
+		}
+		recv := fn.Params[0]
+		var adds []*ssa.Call
+		clears := map[*ssa.BasicBlock][]int{}
+		for _, b := range fn.Blocks {
+			for i, in := range b.Instrs {
+				switch x := in.(type) {
+				case *ssa.Call:
+					f := core.StaticCallee(x)
+					if f == nil || f.Signature.Recv() == nil || !core.IsNamed(f.Signature.Recv().Type(), "s2", "ShapeIndex") {
+						continue
+					}
+					fr, isF := core.AsFieldLoad(x.Call.Args[0])
+					if !isF || fr.Name != "index" || fr.Base != ssa.Value(recv) {
+						continue
+					}
+					switch f.Name() {
+					case "Add":
+						adds = append(adds, x)
+					case "Reset":
+						clears[b] = append(clears[b], i)
+					}
+				case *ssa.Store:
+					if fr, isF := core.AsFieldAddr(x.Addr); isF && fr.Name == "index" && fr.Base == ssa.Value(recv) {
+						if call, isCall := x.Val.(*ssa.Call); isCall && core.StaticCallee(call) != nil && core.StaticCallee(call).Name() == "NewShapeIndex" {
+							clears[b] = append(clears[b], i)
+						}
+					}
+				}
+			}
+		}
+		for k, add := range adds {
+			construct := fmt.Sprintf("add-after-clear:%s#%d", core.FuncName(fn), k+1)
+			ok := false
+			for _, i := range clears[add.Block()] {
+				if i < core.InstrBlockIndex(add) {
+					ok = true
+				}
+			}
+			if !ok {
+				stop := map[*ssa.BasicBlock]bool{}
+				for b := range clears {
+					stop[b] = true
+				}
+				ok = !stop[add.Block()] && (stop[fn.Blocks[0]] || !core.ReachableAvoiding(fn.Blocks[0], add.Block(), nil, stop))
+			}
+			if ok {
+				obs = append(obs, core.Ob("R-RESET", construct, c.Pos(add.Pos()), core.FuncName(fn), core.Discharged, "the index is emptied (Reset or a new index) on every path before the shape is added"))
+			} else {
+				obs = append(obs, core.Ob("R-RESET", construct, c.Pos(add.Pos()), core.FuncName(fn), core.Violated,
+					"the shape adds itself to its index on a path on which the index was not emptied first: the cells built for the previous version of the shape stay in the index (an inverted full loop still answers as full), or the add becomes an incremental update of a built index"))
+			}
+		}
+	}
 	return obs
 }
 
